@@ -23,6 +23,33 @@ func (e *Engine) call(st *State, f *Frame, x ssa.Value, c *ssa.CallCommon, inDef
 	var args []Val
 	var fnv Val
 	if c.IsInvoke() {
+		if n, ok := c.Value.Type().(*types.Named); ok && n.Obj().Pkg() != nil {
+			switch n.Obj().Pkg().Path() {
+			case "github.com/rcrowley/go-metrics", "log/slog":
+				// environment interfaces (metrics, logging): calls are no-ops
+				e.noteStub(n.Obj().Pkg().Path() + " interface methods=noop")
+				if x != nil {
+					if sig, ok := c.Method.Type().(*types.Signature); ok {
+						res := sig.Results()
+						switch res.Len() {
+						case 0:
+						case 1:
+							f.locals[x] = e.zero(res.At(0).Type())
+						default:
+							tv := make(TupleV, res.Len())
+							for i := range tv {
+								tv[i] = e.zero(res.At(i).Type())
+							}
+							f.locals[x] = tv
+						}
+					}
+				}
+				if inDefer {
+					return actAgain, nil
+				}
+				return actNext, nil
+			}
+		}
 		recv := e.get(st, f, c.Value)
 		switch r := recv.(type) {
 		case Union:
